@@ -110,7 +110,7 @@ class NetworkService(ModelElement):
                         # raises PropertyGraphQueryException, an over-long derived name ValueError),
                         # disconnect previously connected interfaces
                         for ii in connected_interfaces:
-                            self.disconnect_interface(ii)
+                            self.disconnect_interface(ii, _internal=True)
                         # remove sliver from the graph (with any service port the failed connect left)
                         self.topo.graph_model.remove_ns_with_cps_and_links(node_id=self.node_id)
                         # re-throw the exception
